@@ -168,7 +168,7 @@ class Report:
                     "evaluations": 0, "distinct_nontrivial": 0, "nonconformances": 0, "tlc_runs": []}
         self.assumptions = []
         self.known = [k for k in load_known() if k.get("property") == prop and k.get("status") == "open"]
-        d = os.path.join(VERIF, "replays", prop)
+        d = os.path.join(os.environ.get("VERIF_REPLAY_DIR", os.path.join(VERIF, "replays")), prop)
         if os.path.isdir(d):                       # replays of earlier runs of this tier are stale
             for f in os.listdir(d):
                 if f.startswith("viol_%s_" % tier):
@@ -190,7 +190,7 @@ class Report:
             if sig_match(k.get("signature", {}), facts):
                 self.known_hit.setdefault(k["id"], {"k": k, "n": 0})["n"] += 1
                 return False
-        d = os.path.join(VERIF, "replays", self.prop)
+        d = os.path.join(os.environ.get("VERIF_REPLAY_DIR", os.path.join(VERIF, "replays")), self.prop)
         os.makedirs(d, exist_ok=True)
         path = os.path.join(d, "viol_%s_%d.json" % (self.tier, len(self.violations)))
         if len(self.violations) < 10:
